@@ -90,6 +90,14 @@ func genTable(g *Gen) []kmount {
 	n := 1 + g.Intn(9)
 	tbl := []kmount{}
 	devs := []string{"8:1", "0:4", "0:6", "0:16", "0:30", "0:31", "253:0"}
+	if g.Chance(1, 60) {
+		// a big table: more mounts and devices than the slices ProbeMounts preallocates
+		// (100 mounts, 20 devices), so that its internal pointers survive a reallocation
+		n = 101 + g.Intn(40)
+		for d := 0; d < 30; d++ {
+			devs = append(devs, fmt.Sprintf("0:%d", 100+d))
+		}
+	}
 	for i := 0; i < n; i++ {
 		m := kmount{ID: fmt.Sprint(20 + i), Opts: g.Pick("rw", "rw,relatime", "ro,nosuid,nodev")}
 		if i == 0 || g.Chance(1, 8) {
